@@ -65,6 +65,29 @@ Theorem C09_import_any_order : forall a q root rname,
 Proof. exact import_complete_archive. Qed.
 Print Assumptions C09_import_any_order.
 
+(* ... and what it delivered is complete: for every acyclic complete archive as above (rank decreases from a manifest
+   list to its entries) the selected manifest was pushed, and every pushed manifest has each of its references - nested
+   manifests, config, layers, blob-typed entries - pushed or uploaded in the same import, before the reference is given *)
+Theorem C09_import_delivers_closure : forall a q root rname,
+  (forall e, In e (entries a) -> exists n c, e = EFile n c) ->
+  (forall n c, In (EFile n c) (entries a) -> 3 <= n -> present a n -> c = n) ->
+  idx a = [(root, KMan, rname)] -> layout_ok a = true ->
+  (exists c, In (EFile 0 c) (entries a)) /\ (exists c, In (EFile 1 c) (entries a)) ->
+  3 <= root /\ present a root /\ content a root <> NBlob ->
+  (forall d, present a d -> 3 <= d ->
+     match content a d with
+     | NIndex ch => forall c k, In (c, k) ch -> 3 <= c /\ present a c /\ (k = KMan -> content a c <> NBlob)
+     | NImage cfg ls => (forall c, cfg = Some c -> 3 <= c /\ present a c) /\ (forall l, In l ls -> 3 <= l /\ present a l)
+     | NBlob => True
+     end) ->
+  forall rank : nat -> nat,
+  (forall d ch c, content a d = NIndex ch -> In c (map fst ch) -> rank c < rank d) ->
+  (forall d, present a d -> rank d < length (entries a) + 2) ->
+  exists evs, import (length (entries a) + 2) a q [] [] = Some (inl (evs ++ [EvTag root])) /\
+    In (EvPut root) evs /\ (forall d, In (EvPut d) evs -> forall c, child a d c -> In (EvPut c) evs \/ In (EvBlob c) evs).
+Proof. exact import_delivers_closure. Qed.
+Print Assumptions C09_import_delivers_closure.
+
 (* the handler of a blob-typed index entry: the code before the repair handed over a drained reader and failed for
    every non-empty blob the target lacks; the repaired code uploads it *)
 Theorem C09_blob_entry_handler : forall a q s d child, memn d (bpresent s) = false -> d <> empty_id a ->
